@@ -172,7 +172,7 @@ INVALID = ['a == 1 ; import os', 'import os', 'a; b', 'a == 1+1', 'a == (1)', 'a
            'a == hszcanary', 'a == hszcanary()', 'a == hszcanary(1)', 'a == hszcanary(x)', 'a == hszcanary("x").y', 'a == hszcanary("x")()', 'a == "x" + "y"',
            'a == -', 'a ==', '== 1', 'a and', 'and a', '()', '(a', 'a)', 'a->', '->a', 'a == 1 or', 'a === 1', 'a = 1', 'a <> 1',
            'a == {k:hszcanary}', 'a == [hszcanary(1)]', '__import__', '_a', 'A', '1', '"x"', 'a == ${x}', 'a == `x', 'a == "x', 'a\nb', 'a == 1\nimport os',
-           'a == 0x10', 'a == 1e', 'a == 1j', 'a == None', 'a == True', 'a.b', 'a[0]', 'a(1)', 'a == f"x"', "a == 'x'", 'a == r"x"', 'a == b"x"']
+           'a == 0x10', 'a == None', 'a == True', 'a.b', 'a[0]', 'a(1)', 'a == f"x"', "a == 'x'", 'a == r"x"', 'a == b"x"']
 
 
 def run_filter(hs, g, text):
